@@ -134,6 +134,44 @@ proof fn lemma_dby_bounds(y: int)
 }
 
 // the two truncating-division formulas of days_since_unix_epoch against the floor closed form
+// (one divisor per lemma: each is a small linear problem for the solver)
+proof fn lemma_dsue_ge(y: int, d: int)
+    requires
+        y >= 1970,
+        d == 4 || d == 100 || d == 400,
+    ensures
+        d == 4 ==> tdiv(y - 1968, 4) == (y - 1) / 4 - 492 + (if y % 4 == 0 { 1int } else { 0 }),
+        d == 100 ==> tdiv(y - 1900, 100) == (y - 1) / 100 - 19 + (if y % 100 == 0 { 1int } else { 0 }),
+        d == 400 ==> tdiv(y - 1600, 400) == (y - 1) / 400 - 4 + (if y % 400 == 0 { 1int } else { 0 }),
+{
+    lemma_div_step(y, d);
+    if d == 4 {
+        assert((y - 1968) / 4 == y / 4 - 492);
+    } else if d == 100 {
+        assert((y - 1900) / 100 == y / 100 - 19);
+    } else {
+        assert((y - 1600) / 400 == y / 400 - 4);
+    }
+}
+
+proof fn lemma_dsue_lt(y: int, d: int)
+    requires
+        y < 1970,
+        d == 4 || d == 100 || d == 400,
+    ensures
+        d == 4 ==> tdiv(y - 1972, 4) == (y - 1) / 4 - 492,
+        d == 100 ==> tdiv(y - 2000, 100) == (y - 1) / 100 - 19,
+        d == 400 ==> tdiv(y - 2000, 400) == (y - 1) / 400 - 4,
+{
+    if d == 4 {
+        assert(-((1972 - y) / 4) == (y - 1) / 4 - 492);
+    } else if d == 100 {
+        assert(-((2000 - y) / 100) == (y - 1) / 100 - 19);
+    } else {
+        assert(-((2000 - y) / 400) == (y - 1) / 400 - 4);
+    }
+}
+
 proof fn lemma_dsue(y: int)
     ensures
         y >= 1970 ==> tdiv(y - 1968, 4) == (y - 1) / 4 - 492 + (if y % 4 == 0 { 1int } else { 0 })
@@ -145,6 +183,16 @@ proof fn lemma_dsue(y: int)
         y % 400 == 0 ==> y % 100 == 0,
         y % 100 == 0 ==> y % 4 == 0,
 {
+    lemma_mod_chain(y);
+    if y >= 1970 {
+        lemma_dsue_ge(y, 4);
+        lemma_dsue_ge(y, 100);
+        lemma_dsue_ge(y, 400);
+    } else {
+        lemma_dsue_lt(y, 4);
+        lemma_dsue_lt(y, 100);
+        lemma_dsue_lt(y, 400);
+    }
 }
 
 // the 100/4/1-year cascade with its clamps, on the day number inside a 400-year cycle
